@@ -162,7 +162,7 @@ func TestC15Liveness(t *testing.T) {
 		c.Desc(s.Descriptor())
 		// safety must hold through the suffix as well
 		if v := s.CheckSafety().Violations(true); len(v) > 0 {
-			rt.Fatalf("C15: safety violated during the run: %v\ncase: %s\nschedule: %s", v, res.Header(), s.Descriptor())
+			rt.Fatalf("C15: safety violated during the run: %v\ncase: %s\nschedule: %s", v, res.Header(), bs.Wrap(s.Descriptor()))
 		}
 		m := sr.Elapsed - sr.ByzLed - 1
 		allow := allowance(sr)
@@ -177,11 +177,11 @@ func TestC15Liveness(t *testing.T) {
 		if !calibrate {
 			if m > allow {
 				rt.Fatalf("C15 VIOLATION: %d rounds after GST (round %d -> %d) with only %d led by a Byzantine predicted leader: %d correct-led rounds failed, allowance %d (+1 for the round GST fell into); all committed=%v gaveUp=%q\ncase: %s\nschedule: %s",
-					sr.Elapsed, sr.RGst, sr.REnd, sr.ByzLed, m+1, allow, sr.AllCommitted, sr.GaveUp, res.Header(), s.Descriptor())
+					sr.Elapsed, sr.RGst, sr.REnd, sr.ByzLed, m+1, allow, sr.AllCommitted, sr.GaveUp, res.Header(), bs.Wrap(s.Descriptor()))
 			}
 			if !sr.AllCommitted {
 				rt.Fatalf("C15 VIOLATION: not every correct replica committed (gave up: %q) although only %d rounds passed since GST (%d Byzantine-led)\ncase: %s\nschedule: %s",
-					sr.GaveUp, sr.Elapsed, sr.ByzLed, res.Header(), s.Descriptor())
+					sr.GaveUp, sr.Elapsed, sr.ByzLed, res.Header(), bs.Wrap(s.Descriptor()))
 			}
 		} else if !sr.AllCommitted {
 			c.Class("calibration:not-all-committed")
